@@ -79,19 +79,37 @@ package standard
 
 //@ func (*Service).generate
 // (assumed, not verified: goroutines, WaitGroup and a channel range) every returned endpoint is a non-nil peer record
+// the commit sender (one goroutine per participant): started only while no prepare/execute failure is on record
+//@ func (*Service).generateDistributed$1
+//@ requires s != nil && s.senderSvc != nil
+//@ requires [nofailure] failedsteps == 0
+
 //@ func (*Service).generateDistributed
 //@ requires [checked] exists c string :: (c + "|" + account + "|" + "Create account") in checkedset
+//@ requires s != nil && s.peersSvc != nil && s.senderSvc != nil && wallet != nil
+//@ requires [fresh-request] failedsteps == 0
+//@ requires [some] numParticipants >= 1
+//@ modifies failedsteps
 //@ ensures [endpoints] result2 == nil ==> (forall i int :: 0 <= i && i < len(result1) ==> result1[i] != nil)
+//@ ensures [nocommit-after-failure] result2 == nil ==> failedsteps == 0
+//@ loop #1
+//@ invariant [clean] failedsteps == 0 && 0 <= _n
+//@ loop #2
+//@ invariant [clean] failedsteps == 0 && 0 <= _n
+//@ loop #3
+//@ invariant [clean] failedsteps == 0 && 0 <= _n && _n <= len(participants)
 //@ func (*Service).checkAccess
 //@ requires s != nil && s.checkerSvc != nil
 //@ modifies checkedset, deniedset
 //@ ensures [ok] result == core.ResultSucceeded ==> credentials != nil && (credentials.Client + "|" + accountName + "|" + action) in checkedset
 
 //@ func (*Service).OnGenerate
-//@ requires s != nil && s.checkerSvc != nil
+//@ requires s != nil && s.checkerSvc != nil && s.peersSvc != nil && s.senderSvc != nil
+// (ghost, per request: no prepare/execute failure is on record when a generation starts)
+//@ requires [fresh-request] failedsteps == 0
 // (main hands over at least one store: core.InitStores returns one per definition, or the default stores)
 //@ requires [stores] len(s.stores) > 0
-//@ modifies checkedset, deniedset
+//@ modifies checkedset, deniedset, failedsteps
 //@ ensures [checked] result2 == nil ==> credentials != nil && (credentials.Client + "|" + account + "|" + ruler.ActionCreateAccount) in checkedset
 //@ ensures [threshold] result2 == nil ==> numParticipants >= 1 && signingThreshold <= numParticipants && 2 * signingThreshold > numParticipants
 //@ ensures [endpoints] result2 == nil ==> (forall i int :: 0 <= i && i < len(result1) ==> result1[i] != nil)
